@@ -117,6 +117,132 @@ def make(N):
     return factory
 
 
+# ---------------------------------------------------------------- the call site: Linter.lint_parsed
+SOURCES = ["templating", "variant0", "variant1", "root_lint", "alt_lint"]
+
+
+def _build_parsed(N, get, choose_src, has_root):
+    """A real ParsedString with two real ParsedVariants; N violations, each placed (by fork) among the templating
+    violations, a variant's parse violations, the root variant's lint results or the alternate variant's lint results."""
+    from sqlfluff.core import FluffConfig
+    from sqlfluff.core.errors import SQLTemplaterError
+    from sqlfluff.core.linter.common import ParsedString, ParsedVariant
+    vs, sigs, where = [], [], []
+    buckets = {k: [] for k in SOURCES}
+    for i in range(N):
+        line, pos = get(f"line{i}", 1), get(f"pos{i}", 1)
+        desc = get(f"desc{i}", 0, 1)
+        src = choose_src(i)
+        if not has_root and src in ("root_lint", "alt_lint"):
+            src = "variant0"
+        if src in ("root_lint", "alt_lint"):
+            code = get(f"code{i}", 0, 1)
+            v = SQLLintError(desc, _Seg("anchor"), _Rule(code), fixes=[])
+            v.line_no, v.line_pos = line, pos
+            sig = (code, line, pos, desc, -1, -1)
+        elif src == "templating":
+            v = SQLTemplaterError(desc, line_no=line, line_pos=pos)
+            sig = ("TMP", line, pos, desc, -1, -1)
+        else:
+            v = SQLParseError(desc, line_no=line, line_pos=pos)
+            sig = ("PRS", line, pos, desc, -1, -1)
+        buckets[src].append(v)
+        vs.append(v)
+        sigs.append(sig)
+        where.append(src)
+    trees = (object(), object()) if has_root else (None, None)
+    variants = [ParsedVariant(None, trees[k], [], buckets[f"variant{k}"]) for k in range(2)]
+    parsed = ParsedString(variants, buckets["templating"], {}, FluffConfig(overrides={"dialect": "ansi"}), "f.sql", "select 1\n")
+    return parsed, variants, buckets, vs, sigs, where
+
+
+def _run_lint_parsed(parsed, variants, buckets):
+    import sqlfluff.core.linter.linter as lmod
+    from sqlfluff.core.rules.base import RulePack
+
+    def stub_lint_fix_parsed(cls, tree, config, rule_pack, fix=False, fname=None, templated_file=None, formatter=None):
+        return tree, list(buckets["root_lint"] if tree is variants[0].tree else buckets["alt_lint"]), None, []
+    real = lmod.Linter.__dict__["lint_fix_parsed"]
+    lmod.Linter.lint_fix_parsed = classmethod(stub_lint_fix_parsed)
+    try:
+        return lmod.Linter.lint_parsed(parsed, RulePack([], {}), fix=False)   # REAL
+    finally:
+        lmod.Linter.lint_fix_parsed = real
+
+
+def _oracle(vs, sigs, out, must_keep=None):
+    idx = []
+    for o in out:
+        k = [i for i, v in enumerate(vs) if v is o]
+        if len(k) != 1:
+            return None
+        idx.append(k[0])
+    ok = z3.BoolVal(len(set(idx)) == len(idx))
+    for a, b in zip(idx, idx[1:]):
+        la, pa, lb, pb = lift(vs[a].line_no), lift(vs[a].line_pos), lift(vs[b].line_no), lift(vs[b].line_pos)
+        ok = z3.And(ok, z3.Or(la < lb, z3.And(la == lb, pa <= pb)))
+    for a, b in itertools.combinations(idx, 2):
+        ok = z3.And(ok, z3.Not(_sig_eq(sigs[a], sigs[b])))
+    for i in (range(len(vs)) if must_keep is None else must_keep):
+        ok = z3.And(ok, z3.Or(*[_sig_eq(sigs[i], sigs[j]) for j in idx]) if idx else z3.BoolVal(False))
+    return ok
+
+
+def make_call_site(N):
+    def factory(excluded=frozenset()):
+        _bind()
+        import sqlfluff.core.linter.linter as lmod
+        lmod.linter_logger = NullLogger()
+
+        def harness(c):
+            from symlite.values import choose
+            has_root = bool(fresh_bool(c, "has_root_variant"))
+            parsed, variants, buckets, vs, sigs, where = _build_parsed(
+                N, lambda n, lo, hi=None: fresh_int(c, n, lo, hi), lambda i: choose(c, f"from{i}", SOURCES), has_root)
+            linted = _run_lint_parsed(parsed, variants, buckets)
+            out = [v for v in linted.violations if any(v is x for x in vs)]
+            # with a root variant, parse errors of the alternate variant are deliberately not surfaced
+            keep = [i for i, w in enumerate(where) if not (has_root and w == "variant1")]
+            ok = _oracle(vs, sigs, out, keep)
+            if ok is None:
+                return False
+            if not has_root:
+                c.witness("no_root_variant")
+            if has_root and "alt_lint" in where and "root_lint" in where:
+                c.witness("root_and_alternate_variant")
+            if len(out) < N:
+                c.witness("deduplicated")
+            return ok
+        return harness
+    return factory
+
+
+def replay_call_site(N):
+    def rp(cex):
+        if "set" in vars(lfmod):
+            del lfmod.set
+        has_root = bool(cex.get("has_root_variant"))
+        parsed, variants, buckets, vs, sigs, where = _build_parsed(
+            N, lambda n, lo, hi=None: int(cex.get(n, lo)), lambda i: SOURCES[int(cex.get(f"from{i}", 0))], has_root)
+        for v in vs:
+            if isinstance(v.description, int):
+                v.description = f"d{v.description}"
+        linted = _run_lint_parsed(parsed, variants, buckets)
+        out = [v for v in linted.violations if any(v is x for x in vs)]
+        keys = [(o.line_no, o.line_pos) for o in out]
+        problems = []
+        if keys != sorted(keys):
+            problems.append(f"violations not in source order: {keys}")
+        osig = [sigs[[i for i, v in enumerate(vs) if v is o][0]] for o in out]
+        if len(set(osig)) != len(osig):
+            problems.append(f"the same violation is reported more than once: {osig}")
+        need = {sg for sg, w in zip(sigs, where) if not (has_root and w == "variant1")}
+        if need - set(osig):
+            problems.append(f"violation lost: {sorted(need - set(osig), key=str)}")
+        return (f"lint_parsed with {'a' if has_root else 'no'} root variant, violations from {where}: " + "; ".join(problems)) if problems else None
+    return rp
+
+
 def replay(N):
     def rp(cex):
         if "set" in vars(lfmod):
@@ -154,4 +280,17 @@ def units(tier, seed):
         stubs=["linted_file.set = SymSet (linear scan with symbolic equality)", "rule/segment/fix = duck-typed stubs carrying symbolic ids"],
         outside=["which violations the rules produce per variant/loop iteration"],
         witnesses_required=["deduplicated"] + (["all_kept"] if N > 1 else []),
-        sharded=True, timeout_s=200 if tier == "quick" else 1500) for N in ns]
+        sharded=True, timeout_s=200 if tier == "quick" else 1500) for N in ns] + [Unit(
+        name=f"c33.lint_parsed_call_site[N={N}]",
+        functions=["sqlfluff.core.linter.linter.Linter.lint_parsed (assembly of templating / per-variant parse / root and alternate "
+                   "variant lint results)", "LintedFile.deduplicate_in_source_space", "ParsedString.root_variant"],
+        bounds={"violations": N, "origin of each": SOURCES, "root variant": "present / absent (no parse tree)", "line/col": "unbounded",
+                "rendering variants": 2},
+        make=make_call_site(N), replay=replay_call_site(N),
+        stubs=["Linter.lint_fix_parsed -> returns the violations assigned to that variant", "trees = opaque objects",
+               "linted_file.set = SymSet"],
+        assumptions=["with a root variant, parse errors of alternate variants may be dropped (documented in lint_parsed); they are "
+                     "exempt from the 'kept' clause, not from order/uniqueness"],
+        outside=["more than two variants", "fix mode"],
+        witnesses_required=["no_root_variant", "root_and_alternate_variant", "deduplicated"],
+        sharded=True, timeout_s=300 if tier == "quick" else 1500) for N in ([2] if tier == "quick" else [2, 3])]
